@@ -7,12 +7,15 @@ import WsVerif.Ops.History
 import WsVerif.Ops.Frame
 import WsVerif.Ops.Specpart
 import WsVerif.Ops.Native
+import WsVerif.Ops.Smooth
+import WsVerif.Ops.Regrid
+import WsVerif.Ops.Assembly
 /-! Line-protocol driver: one request per line on stdin, one response per line on stdout.
     Each `WsVerif/Ops/*.lean` file contributes a list of named operations. -/
 open WS WS.Proto
 
 def allOps : List (String × P String) :=
-  WS.Ops.Stats.ops ++ WS.Ops.Peak.ops ++ WS.Ops.Track.ops ++ WS.Ops.Select.ops ++ WS.Ops.History.ops ++ WS.Ops.Frame.ops ++ WS.Ops.Specpart.ops ++ WS.Ops.Native.ops
+  WS.Ops.Stats.ops ++ WS.Ops.Peak.ops ++ WS.Ops.Track.ops ++ WS.Ops.Select.ops ++ WS.Ops.History.ops ++ WS.Ops.Frame.ops ++ WS.Ops.Specpart.ops ++ WS.Ops.Native.ops ++ WS.Ops.Smooth.ops ++ WS.Ops.Regrid.ops ++ WS.Ops.Assembly.ops
 
 def dispatch (op : String) : P String :=
   match allOps.lookup op with
